@@ -1219,6 +1219,7 @@ package engine
 //@   ensures[delivers-the-rune-the-reader-gave] err == nil ==> r == gf(delivered, s.buf.Reader)
 //@   ensures[not-at-the-end-while-input-is-buffered] err == nil && gf(buffered, s.buf.Reader) > 0 ==> s.endOfStream == 0
 //@   ensures[past-once-the-end-was-hit] old(s.mode) == 0 && old(s.streamType) == 0 && err == io.EOF ==> s.endOfStream == 2
+//@   ensures[the-end-is-reported-by-the-source-itself-after-which-nothing-can-be-unread] old(s.mode) == 0 && old(s.streamType) == 0 && (old(s.endOfStream) != 2 || s.eofAction == 0 || s.eofAction == 2) && err == io.EOF ==> s.buf.Reader != nil && gf(lastRune, s.buf.Reader) == -1
 
 //@ func (*Stream).UnreadRune
 //@   property C19
@@ -1240,6 +1241,7 @@ package engine
 //@   ensures[delivers-the-byte-the-reader-gave] result1 == nil ==> result0 == gf(delivered, s.buf.Reader)
 //@   ensures[not-at-the-end-while-input-is-buffered] result1 == nil && gf(buffered, s.buf.Reader) > 0 ==> s.endOfStream == 0
 //@   ensures[past-once-the-end-was-hit] old(s.mode) == 0 && old(s.streamType) == 1 && result1 == io.EOF ==> s.endOfStream == 2
+//@   ensures[every-read-goes-to-the-source-so-no-rune-can-be-unread-after-it] old(s.mode) == 0 && old(s.streamType) == 1 && (old(s.endOfStream) != 2 || s.eofAction == 0 || s.eofAction == 2) && result1 == io.EOF ==> s.buf.Reader != nil && gf(lastRune, s.buf.Reader) == -1
 
 //@ func (*Stream).UnreadByte
 //@   property C19
